@@ -867,11 +867,15 @@ class SymTuple(tuple):
         if isinstance(i, SBool):
             i = ite(i, 1, 0)
         if isinstance(i, SInt):
-            lo, hi = i.bounds()
             n = len(self)
-            if (lo is not None and 0 <= lo and hi < n
-                    and all(isinstance(v, int) and not isinstance(v, bool) for v in tuple.__getitem__(self, slice(lo, hi + 1)))):
-                return table(i - lo, list(tuple.__getitem__(self, slice(lo, hi + 1))), 0)
+            items = list(tuple.__iter__(self))
+            if all(isinstance(v, int) and not isinstance(v, bool) for v in items):
+                lo, hi = i.bounds()
+                if lo is not None and 0 <= lo and hi < n:
+                    return table(i - lo, items[lo:hi + 1], 0)
+                # interval bounds do not know the path condition: let the solver decide the range
+                if AND(i >= 0, i < n):
+                    return table(i, items, 0)
             i = i.concretize()
         return tuple.__getitem__(self, i)
 
